@@ -23,7 +23,7 @@
 from casadi import Opti, jacobian, dot, hessian, symvar, evalf, veccat, DM, vertcat, is_equal
 import casadi
 import numpy as np
-from .casadi_helpers import get_meta, merge_meta, single_stacktrace, MX
+from .casadi_helpers import get_meta, merge_meta, single_stacktrace, comparison_links, MX
 from .solution import OcpSolution
 from .freetime import FreeTime
 
@@ -327,10 +327,14 @@ class OptiWrapper(Opti):
         Opti.subject_to(self)
         n_constr = len(self.constraints)
         res = placeholders([c[0] for c in self.constraints] + [self.objective]+self.initial_keys)
-        for c, scale, meta in zip(res[:n_constr], [c[1] for c in self.constraints], [c[2] for c in self.constraints]):
+        for c, c_orig, scale, meta in zip(res[:n_constr], [c[0] for c in self.constraints], [c[1] for c in self.constraints], [c[2] for c in self.constraints]):
             try:
-                if MX(c).is_constant() and MX(c).is_one():
-                    continue
+                if MX(c).is_constant():
+                    # lb <= (g <= ub) with g resolved to a number: judge lb <= g and g <= ub one by one
+                    links = placeholders(comparison_links(c_orig))
+                    if all(MX(l).is_constant() and MX(l).is_one() for l in links):
+                        continue
+                    raise Exception("You have a constraint that is never statisfied.")
                 if not MX(scale).is_one():
                     mc = opti_advanced.canon_expr(c) # canon_expr should have a static counterpart
                     if mc.type in [casadi.OPTI_INEQUALITY, casadi.OPTI_GENERIC_INEQUALITY, casadi.OPTI_DOUBLE_INEQUALITY]:
